@@ -803,7 +803,7 @@ theorem draw_text_wrap (K : Ctx W cb) (hW : WOk W) (hS : SrcOk W K.src) (X : WCt
   have hstep := step_text W cb (K.src[0].contents.take K.src[0].len) ht.valid
     (by rw [ht.chars]; exact ht.plain) ht.noesc
   rw [ht.chars] at hstep
-  have hfit : (W f).getD 1 ≤ K.r0.g.size.cols := by have := ht.fits; rw [K.hsrc] at this; omega
+  have hfit : min ((W f).getD 1) 2 ≤ K.r0.g.size.cols := by have := ht.fits; rw [K.hsrc] at this; omega
   have hwrap := typeChars_wraps W K.canvas X.hi1 K.hi hlen X.hp X.hlast X.hocc K.src[0].attrs f zs ht.width hfit ht.first
   have hlK : Line (K.wrapped X).src 0 Ri0 := hl
   by_cases hwide : K.src[0].wide = true
